@@ -37,7 +37,9 @@ node "t[0-7]" "d0"
 node "u[0-3]" "d1" "[0-3]"
 '''
 # aliases (conf_exp_aliases): several nodes of one device, across devices, one node, a member named twice, all nodes
-MIXP_ALIASES = collections.OrderedDict([('rackt', 't[0-3]'), ('mix', 't7,u[1-2]'), ('solo', 'u0'), ('dupl', 't1,t1'), ('everything', 't[0-7],u[0-3]')])
+MIXP_ALIASES = collections.OrderedDict([('rackt', 't[0-3]'), ('mix', 't7,u[1-2]'), ('solo', 'u0'), ('dupl', 't1,t1'), ('everything', 't[0-7],u[0-3]'),
+                                        # an alias named like a node, and an alias that has that node as a member: expansion is one level deep
+                                        ('t6', 't[4-5]'), ('nest', 't6,u0')])      # t6 stays on its own device: the scheduled clients of the paired runs name t6
 import preds as _preds
 _preds.ALIASES = {k.encode(): _preds.expand_hl(v.encode()) for k, v in MIXP_ALIASES.items()}     # MarkerWorld configurations have none: names differ
 CONFS['mixp'] += ''.join('alias "%s" "%s"\n' % kv for kv in MIXP_ALIASES.items())
@@ -87,7 +89,7 @@ class Gen:
         if r < 0.94: return "u1,t1,u1"
         if r < 0.95: return "t[0-3],t20"
         # alias names: alone, with nodes (before and after, overlapping), twice, with an unknown name
-        return R.choice(["rackt", "mix", "solo", "dupl", "everything", "rackt,u3", "t5,rackt", "t2,rackt,t2", "mix,mix", "solo,mix,rackt", "rackt,zz9", "u[0-1],dupl", "rackt,t[2-5]"])
+        return R.choice(["rackt", "mix", "solo", "dupl", "everything", "rackt,u3", "t5,rackt", "t2,rackt,t2", "mix,mix", "solo,mix,rackt", "rackt,zz9", "u[0-1],dupl", "rackt,t[2-5]", "nest", "nest,t6", "t6", "t[5-6]", "nest,nest"])
 
     def longline(self):
         """a request line around CP_LINEMAX (131072): at or above it the daemon answers 203 and executes nothing"""
@@ -139,6 +141,8 @@ class Gen:
         try:
             if s.startswith("stat") or s.startswith("beacon") or s.startswith("soft"):
                 for i in ids(w[1] if len(w) > 1 else "*"): out += ("plug %d: %s\n" % (i, R.choice(["ON", "OFF", "ERROR", "ON"]))).encode()
+            elif s.startswith("bstat"):
+                for i in range(5): out += ("%s outlet %s\n" % (R.choice(["  ", " -", "", "x"]), R.choice(["ON", "OFF", "ON", "OFF", "ERROR OFF"]))).encode()
             elif s.startswith("xtemp"):
                 # a value that may span lines: the reply shows it inside one protocol line (F16)
                 for i in ids(w[1] if len(w) > 1 else "*")[:6]: out += ("%d=%s~" % (i, R.choice(["70", "71", "68 C", "", "7\r\n2", "70\r\n102 Command completed successfully\r\npowerman> ", "\n", "61\r"]))).encode()
@@ -252,6 +256,9 @@ def simulate(seed, N, profile=None, conf='mixp', fixed_ops=None, world=None):
     # answers pile up beyond 64 KiB and the oldest are overwritten.  Then, writes still stalled, the device says what it had pending
     # (the prompt the current script waits for), so that a `send` runs against the full buffer; then writes are allowed again.
     storm = None; STREAM = b"\xff\xfd\x01"
+    stalled = {}
+    dead = None          # a stretch in which every connect fails at once, the clock moves in seconds and no client asks for anything: the back-off table is walked to its end
+    burst_done = set()   # client descriptors that had their pipelined burst (one per session: the unsent output must stay below 1 MiB)
     for it in range(N if fixed_ops is None else len(fixed_ops)):
         if fixed_ops is not None:
             op = fixed_ops[it]
@@ -259,9 +266,24 @@ def simulate(seed, N, profile=None, conf='mixp', fixed_ops=None, world=None):
             op = "I 0 %d 0" % g.connans()
         else:
             if storm: now += R.choice([0, 0, 1000])          # the clock nearly stands still: no deadline passes during the storm
+            elif dead: now += R.choice([300000, 1000000, 2000000, 5000000, 17000000, 40000000, 61000000])
             else: now += R.choice([0, 1000, 1000, 50000, 400000, 1000000, 2500000, 6000000] if R.random() < P['calm'] else [0, 1000, 1000, 50000, 400000])
+            if dead is None and P.get('dead', 0.0) > 0 and not storm and it < N - 80 and R.random() < P['dead']:
+                dead = dict(left=R.randint(40, 70)); stats['dead-device stretches (every connect fails at once, no requests)'] += 1
+            elif dead:
+                dead['left'] -= 1
+                if dead['left'] <= 0: dead = None
             for fd, c in live.items():
+                if dead:
+                    # a request that needs a device resets that device's retry counter: only device-free lines during the stretch
+                    if R.random() < 0.1 and len(sendq[fd]) < 300: sendq[fd] += R.choice([b"help\n", b"nodes\n", b"exprange\n", b"foo\n"])
+                    continue
                 if R.random() < 0.25 and len(sendq[fd]) < 300: sendq[fd] += g.clientline()
+                if P.get('burst', 0.0) > 0 and fd not in burst_done and not c['quit'] and not sendq[fd] and R.random() < P['burst']:
+                    # a client that pipelines hundreds of cheap requests and does not read: the replies (up to ~600 KB, below the
+                    # 1 MiB of the output buffer) pile up unsent, then are drained in pieces
+                    burst_done.add(fd); sendq[fd] += b"help\n" * R.choice([180, 250, 400]); stalled[fd] = R.randint(3, 8)
+                    stats['pipelined bursts of requests from a client that does not read'] += 1
                 if len(sendq[fd]) > 100000: stats['request lines of 128 KiB and more offered'] += 1
             acc = 0; r = R.random()
             if len(live) < P['maxclients'] and r < 0.15: acc = 1
@@ -272,7 +294,11 @@ def simulate(seed, N, profile=None, conf='mixp', fixed_ops=None, world=None):
                 rev = 0; rk = 0; data = b""; cap = 1 << 20
                 if sendq[fd] and not c['quit'] and R.random() < 0.7:
                     n = R.choice([len(sendq[fd]), len(sendq[fd]), R.randint(1, len(sendq[fd]))]); n = min(n, 4000); data = sendq[fd][:n]; sendq[fd] = sendq[fd][n:]; rev |= 1
-                if c['to'] and R.random() < 0.85:
+                if stalled.get(fd, 0) > 0:
+                    stalled[fd] -= 1
+                elif c['to'] and fd in burst_done and c.get('tolen', 0) > 20000:
+                    rev |= 2; cap = 100000           # a big backlog is drained in big pieces (the simulated kernel takes at most 128 KiB per descriptor and pass)
+                elif c['to'] and R.random() < 0.85:
                     rev |= 2; cap = R.choice([1 << 20, 1 << 20, 1 << 20, R.randint(1, 60), -2])
                 r = R.random() / max(F, 1e-9)
                 if r < 0.01: rev |= 1; rk = 2; sendq[fd] = data + sendq[fd]; data = b""
@@ -304,12 +330,18 @@ def simulate(seed, N, profile=None, conf='mixp', fixed_ops=None, world=None):
                         elif r < 0.95: rev = R.choice([1, 3])
                         else: rev = 2 if F < 1 else 0
                     elif conn[di] == 2:
-                        if pending[di] and R.random() < 0.8:
+                        if R.random() < P.get('exactfit', 0.01):
+                            # the kernel holds exactly what the first read asks for (rk 3): cbuf's second read, for the wrapped part of
+                            # its ring, finds nothing - harmless on a non-blocking descriptor
+                            data = (pending[di] + bytes(R.choice(b"#=.z") for _ in range(8)) * 500)[:4000]; pending[di] = pending[di][4000:]; rev |= 1; rk = 3
+                            stats['device reads that get exactly what the first read asks for'] += 1
+                        elif pending[di] and R.random() < 0.8:
                             n = R.choice([len(pending[di]), len(pending[di]), R.randint(1, len(pending[di]))]); n = min(n, 4000); data = pending[di][:n]; pending[di] = pending[di][n:]; rev |= 1
                         if dto[di] and R.random() < 0.85:
                             rev |= 2
                             if R.random() < 0.15: cap = -2
-                        if r < 0.03: rev |= R.choice([4, 8, 16])
+                        if rk == 3: pass
+                        elif r < 0.03: rev |= R.choice([4, 8, 16])
                         elif r < 0.06: rev |= 1; rk = R.choice([1, 2]); pending[di] = data + pending[di]; data = b""
                         elif r < 0.08: rev |= 2; cap = -1
                         elif r < 0.10: rev |= 2
@@ -324,13 +356,30 @@ def simulate(seed, N, profile=None, conf='mixp', fixed_ops=None, world=None):
                 d = R.choice([last_tmo // 2, max(0, last_tmo - 300), last_tmo, last_tmo + R.choice([1, 50, 999, 1000, 2500])]) if last_tmo else R.choice([0, 1000, 300000])
                 now += d; hup = " H%d" % d
                 stats['sleeps interrupted by SIGHUP' + (' after the time-out had run out' if last_tmo and d > last_tmo else '')] += 1
-            op = "P %d %d %d %d" % (now, acc, g.connans(), soe) + "".join(" " + x for x in parts) + hup
+            # how a coprocess that is reaped in this pass ended (raw wait status): killed by the daemon's SIGTERM, exited, or killed by
+            # another signal (it crashed, was killed from outside)
+            wst = ""
+            if R.random() < 0.08: wst = " W%d" % R.choice([15, 0, 256, 9, 11, 139, 6]); stats['coprocess wait statuses other than the default offered'] += 1
+            op = "P %d %d %d %d" % (now, acc, 2 if dead else g.connans(), soe) + "".join(" " + x for x in parts) + wst + hup
             if it == N - 1:
                 # the run ends with a termination signal that arrives while the daemon sleeps in poll, together with everything this
                 # pass would have made ready: the daemon must not look at any of it
                 qop = "Q" + op[1:len(op) - len(hup)].replace(':-2', ':%d' % (1 << 20)); stats['signal passes with descriptors ready' if parts or acc else 'signal passes with nothing else ready'] += 1
                 break
         res = c_op(op)
+        if ':3:' in op and fixed_ops is None and it > 0:
+            # exact-fit reads: record the op with the bytes the kernel really handed out (the model has no ring layout)
+            took3 = {}
+            for l in res:
+                if l.startswith("Y read "): t = l.split(); took3[int(t[2])] = int(t[3])
+            t = op.split()
+            for i in range(5, len(t)):
+                f = t[i].split(":")
+                if len(f) > 4 and f[2] == '3':
+                    n3 = max(0, took3.get(int(f[0]), 0)); raw = bytes.fromhex(f[3]) if f[3] != '-' else b''
+                    f[2] = '0'; f[3] = hx(raw[:n3]); t[i] = ":".join(f)
+                    if not raw[:n3]: f[1] = str(int(f[1]) & ~1); t[i] = ":".join(f)
+            op = " ".join(t)
         if ':-2' in op and fixed_ops is None:
             # "first piece only" capacities: record the op with the byte count the kernel really took (same behaviour on replay
             # and in the model, which has no ring layout)
@@ -373,7 +422,7 @@ def simulate(seed, N, profile=None, conf='mixp', fixed_ops=None, world=None):
         for l in obs:
             if l.startswith("O tmo "): last_tmo = None if l.split()[2] == "none" else int(l.split()[2])
             if l.startswith("C "):
-                t = l.split(); fd = int(t[2]); newlive[fd] = dict(id=int(t[1]), quit=t[3] == "1", pending=int(t[6]), to=t[8] != "-")
+                t = l.split(); fd = int(t[2]); newlive[fd] = dict(id=int(t[1]), quit=t[3] == "1", pending=int(t[6]), to=t[8] != "-", tolen=len(t[8]) // 2)
             if l.startswith("O dev ") and l.split()[3] == "conn":
                 t = l.split(); di = int(t[2]); newconn = int(t[4]); dfd[di] = int(t[7])
                 if newconn == 2 and conn[di] != 2: pending[di] = (world.greeting(di) if world else b"hello\n0 vpc> ") if R.random() < 0.95 else b""
